@@ -174,6 +174,9 @@ func Gen(caseID, tier string) (json.RawMessage, error) {
 	p.TktEtype = r.PickInt(0, 18, 17, 20, 23)
 	p.ExpiryGraceS = int64(r.PickInt(0, 300))
 	p.TerseErrors = r.Chance(1, 4)
+	if r.Chance(1, 4) {
+		p.ErrorSName = r.Pick("empty", "krbtgt")
+	}
 	p.TerseASRep = r.Chance(1, 4)
 	p.OmitDefaultSalt = r.Chance(1, 4)
 	if tp.Cred == "password" && p.RequirePreauth && r.Chance(1, 2) {
